@@ -1,302 +1,43 @@
-"""C06 — keep-sorted reports a block iff its keys are out of order (no-pattern configurations).
+"""C06 — keep-sorted reports a block iff its keys are out of order.
 
-Encoded (real MIR): KeepSortedValidator::validate (+closures), trimmed_line_value,
+Encoded (real MIR): KeepSortedValidator::validate (+closures), trimmed_line_value, regex_value,
 SortFormat::cmp (+closures), strum-generated SortFormat::from_str, keep_sorted::create_violation,
-Block::content / severity / name_display, plus the block-parser glue that builds the Block.
-Symbolic: every key byte and blank byte; the is_content_modified / tag-modified flags
-(non-interference, C02).  Enumerated: direction and format spellings, per-line shapes.
-Oracle: keys = trimmed non-blank lines; violation iff some key is strictly out of order
-w.r.t. its predecessor (bytewise, or as integers under numeric), at most one, on the first.
+Block::content / severity / name_display, and the block-parser glue that builds the Block.
+See props/keycheck.py for the harness; oracle: keys = trimmed non-blank lines / `value` group /
+whole match; violation iff some key is strictly out of order w.r.t. its predecessor (bytewise,
+or as integers under numeric), exactly one, on the first such key.
 """
-import itertools
-import json
-import random
 import sys
-
-import z3
-
-from .common import *  # noqa
-from .vharness import *  # noqa
-from .layout import *  # noqa
-from . import c10
-from mirsym.interp import explore, PathStats
+from .keycheck import Config, run_main
 
 PROP = 'C06'
-KEY_ALPHABET = [ord(c) for c in 'abB1']
-NUM_FIRST = [ord(c) for c in '-0129']
-NUM_REST = [ord(c) for c in '0129']
-
+AB = [97, 98, 66, 49]
+V, C = 'KeepSortedValidator', 'keep-sorted'
 CONFIGS = [
-    # (attrs text, direction, numeric)
-    (' keep-sorted', 'asc', False),
-    (' keep-sorted="asc"', 'asc', False),
-    (' keep-sorted="ASC"', 'asc', False),
-    (' keep-sorted="desc"', 'desc', False),
-    (' keep-sorted="Desc"', 'desc', False),
-    (' keep-sorted keep-sorted-format="numeric"', 'asc', True),
-    (' keep-sorted="desc" keep-sorted-format="NUMERIC"', 'desc', True),
-    (' keep-sorted="asc" keep-sorted-format=" lexicographic "', 'asc', False),
+    Config(PROP, V, C, ' keep-sorted', 'trim', 'asc', AB, AB + [32]),
+    Config(PROP, V, C, ' keep-sorted="asc"', 'trim', 'asc', AB, AB + [32]),
+    Config(PROP, V, C, ' keep-sorted="ASC"', 'trim', 'asc', AB, AB + [32]),
+    Config(PROP, V, C, ' keep-sorted="desc"', 'trim', 'desc', AB, AB + [32]),
+    Config(PROP, V, C, ' keep-sorted="Desc"', 'trim', 'desc', AB, AB + [32]),
+    Config(PROP, V, C, ' keep-sorted keep-sorted-format="numeric"', 'trim', 'asc', None, numeric=True),
+    Config(PROP, V, C, ' keep-sorted="desc" keep-sorted-format="NUMERIC"', 'trim', 'desc', None, numeric=True),
+    Config(PROP, V, C, ' keep-sorted="asc" keep-sorted-format=" lexicographic "', 'trim', 'asc', AB, AB + [32]),
+    Config(PROP, V, C, ' keep-sorted keep-sorted-pattern="k=(?P<value>[ab]+)"', 'group', 'asc', [97, 98]),
+    Config(PROP, V, C, ' keep-sorted="desc" keep-sorted-pattern="[ab]+"', 'plain', 'desc', [97, 98]),
 ]
-
-
-def sym_num_line(I, tag, spec):
-    lead, klen, trail = spec
-    bs = [I.fresh_byte('%s_w%d' % (tag, i), WS) for i in range(lead)]
-    key = []
-    for i in range(klen):
-        key.append(I.fresh_byte('%s_k%d' % (tag, i), NUM_FIRST if i == 0 else NUM_REST))
-    if klen == 1:
-        I.add(key[0] != 45)           # a lone '-' is not a number (that case is C13's)
-    bs.extend(key)
-    bs.extend(I.fresh_byte('%s_t%d' % (tag, i), WS) for i in range(trail))
-    return tuple(bs), tuple(key)
-
-
-def num_value(key):
-    digs = key
-    neg = None
-    if len(key) > 1:
-        neg = key[0] == 45
-        tail = 0
-        for b in key[1:]:
-            tail = tail * 10 + (b - 48)
-        full = 0
-        for b in key:
-            full = full * 10 + (b - 48)
-        return z3.If(neg, -tail, full)
-    return key[0] - 48
-
-
-def run_case(task):
-    cfg_i, lay_spec, line_specs, want_sample = task
-    attrs, direction, numeric = CONFIGS[cfg_i]
-    prog = driver.load_program()
-    stats = PathStats()
-    out = dict(violations=[], samples=[], obligations=0, cover={}, panic_paths=0)
-    holder = {}
-    roles = set()
-
-    def run_path(I):
-        spec0, specs, spec_last = line_specs
-        mk = (lambda tag, sp: sym_num_line(I, tag, sp)) if numeric else \
-             (lambda tag, sp: sym_line(I, tag, sp, KEY_ALPHABET, KEY_ALPHABET + [32]))
-        t0, k0 = mk('L0', spec0)
-        keys = [(0, spec0, k0)]
-        lines = []
-        for i, sp in enumerate(specs):
-            l, k = mk('L%d' % (i + 1), sp)
-            lines.append(l)
-            keys.append((i + 1, sp, k))
-        ll, kl = mk('LZ', spec_last)
-        keys.append((len(specs) + 1, spec_last, kl))
-        lay = Layout(lay_spec[0], lay_spec[1], lay_spec[2], lay_spec[3], lay_spec[4], attrs, t0, lines, ll)
-        holder['lay'] = lay
-        holder['keys'] = keys
-        res = parse_layout_blocks(I, prog, lay)
-        if res.v != 0 or len(res.f[0].items) != 1:
-            raise EngineError('layout did not parse into one block')
-        cm = I.fresh_bool('content_modified')
-        tm = I.fresh_bool('tag_modified')
-        bwc = mk_bwc(prog, res.f[0].items[0], content_modified=cm, tag_modified=tm)
-        ctx = mk_context(prog, I, [(b'f.js', lay.src, [bwc])])
-        return run_validator(I, prog, 'KeepSortedValidator', ctx)
-
-    def viol(I, cond, role, summary):
-        out['obligations'] += 1
-        if role in roles:
-            return
-        if I.check(cond):
-            roles.add(role)
-            m = I.solver.model()
-            out['violations'].append(dict(role=role, summary=summary, cfg=attrs,
-                                          src=model_bytes(m, holder['lay'].src).decode('latin1')))
-
-    for I, pk, val in explore(prog, models.M, run_path, stats=stats, max_paths=100000):
-        if pk == 'panic':
-            out['panic_paths'] += 1
-            viol(I, z3.BoolVal(True), 'panic', 'panic: %s' % val.msg[:120])
-            continue
-        lay = holder['lay']
-        stt, res = decode_violations(prog, val)
-        if stt == 'err':
-            viol(I, z3.BoolVal(True), 'unexpected-error', 'validator returned Err on a well-formed rule')
-            continue
-        pos = c10.key_positions(lay, holder['keys'])
-        conds = []
-        none_before = []
-        for i in range(len(pos)):
-            if i == 0:
-                bad = z3.BoolVal(False)
-            else:
-                a, b = pos[i - 1][3], pos[i][3]
-                if numeric:
-                    va, vb = num_value(a), num_value(b)
-                    bad = (vb < va) if direction == 'asc' else (vb > va)
-                else:
-                    bad = lex_lt(b, a) if direction == 'asc' else lex_lt(a, b)
-            conds.append(zand(none_before + [bad]))
-            none_before = none_before + [z3.Not(bad)]
-        none = zand(none_before)
-        vs = res.get(b'f.js', [])
-        if len(vs) > 1 or [p for p in res if p != b'f.js']:
-            viol(I, z3.BoolVal(True), 'more-than-one-violation', 'more than one violation for one block')
-        if not vs:
-            viol(I, z3.Not(none), 'unsorted-block-passes', 'a key is out of order but nothing is reported')
-            out['cover']['clean'] = out['cover'].get('clean', 0) + 1
-        else:
-            v0 = vs[0]
-            viol(I, none, 'sorted-block-reported', 'all keys are in order (equal neighbours allowed) but a violation is reported')
-            rep = (v0['start'], v0['end'])
-            for i, c in enumerate(conds):
-                want = ((pos[i][0], pos[i][1]), (pos[i][0], pos[i][2]))
-                if want != rep:
-                    viol(I, c, 'not-the-first-offender', 'first out-of-order key at %s, reported %s' % (want, rep))
-            if bytes(v0['code']) != b'keep-sorted':
-                viol(I, z3.BoolVal(True), 'wrong-code', 'code %r' % bytes(v0['code']))
-            out['cover']['reported'] = out['cover'].get('reported', 0) + 1
-        out['cover']['numeric' if numeric else 'lexicographic'] = 1
-        out['cover'][direction] = 1
-        if want_sample and len(out['samples']) < 1:
-            m = I.ensure_model()
-            out['samples'].append(dict(src=model_bytes(m, lay.src).decode('latin1'),
-                                       reported=None if not vs else (vs[0]['start'], vs[0]['end'])))
-    out.update(Agg(PROP, 'x').stats_from(stats))
-    return out
-
-
-def observe(binary, src):
-    r = run_scan(binary, {'f.js': src}, ['f.js'])
-    out = dict(code=r['code'], stderr=r['stderr'][-300:])
-    if r['diags'] is not None:
-        ds = [x for x in r['diags'].get('f.js', []) if x.get('code') == 'keep-sorted']
-        out['diags'] = [((x['range']['start']['line'], x['range']['start']['character']),
-                         (x['range']['end']['line'], x['range']['end']['character'])) for x in ds]
-    elif r['code'] == 0:
-        out['diags'] = []
-    return out
-
-
-def ref_expected(src):
-    import re
-    s = src.decode('latin1')
-    m = re.search(r'<block ([^>]*)>', s)
-    attrs = m.group(1)
-    desc = re.search(r'keep-sorted="desc"', attrs, re.I) is not None
-    numeric = re.search(r'keep-sorted-format="\s*numeric\s*"', attrs, re.I) is not None
-    cstart = s.index('*/', m.end()) + 2
-    cend = s.index('/* </block>')
-    keys = []
-    off = cstart
-
-    def pos(o):
-        return (s.count('\n', 0, o) + 1, o - (s.rfind('\n', 0, o) + 1) + 1)
-    for ln in s[cstart:cend].split('\n'):
-        t = ln.strip(' \t')
-        if t:
-            a = off + (len(ln) - len(ln.lstrip(' \t')))
-            keys.append((t, a, a + len(t) - 1))
-        off += len(ln) + 1
-    for i in range(1, len(keys)):
-        a, b = keys[i - 1][0], keys[i][0]
-        if numeric:
-            a, b = float(a), float(b)
-        else:
-            a, b = a.encode('latin1'), b.encode('latin1')
-        if (b > a) if desc else (b < a):
-            return [(pos(keys[i][1]), pos(keys[i][2]))]
-    return []
-
-
-def confirm(binary, v, idx):
-    src = v['src'].encode('latin1')
-    obs = observe(binary, src)
-    want = ref_expected(src)
-    v['observed'] = obs
-    v['expected'] = want
-    got = obs.get('diags')
-    bad = got is None or [tuple(map(tuple, x)) for x in got] != [tuple(map(tuple, x)) for x in want]
-    v['confirmed'] = bool(bad)
-    if bad:
-        v['replay'] = save_replay(PROP, '%s-%d' % (v['role'], idx), {'f.js': src}, 'f.js',
-                                  'expected keep-sorted ranges %s ; %s' % (want, v['summary']), v)
-    return v
-
-
 SPECS = [(0, 1, 0), (1, 2, 0), (0, 2, 1), (1, 0, 0), (0, 0, 0)]
 NUM_SPECS = [(0, 1, 0), (1, 2, 0), (0, 3, 1), (1, 0, 0)]
-
-BOUNDS = {
-    'quick': dict(nlines=3, per_cfg=45, validate=30),
-    'thorough': dict(nlines=5, per_cfg=700, validate=150),
-}
+BOUNDS = {'quick': dict(nlines=3, per_cfg=36, validate=30), 'thorough': dict(nlines=5, per_cfg=600, validate=150)}
 
 
 def main(tier):
-    b = BOUNDS[tier]
-    agg = Agg(PROP, tier)
-    binary = driver.real_binary()
-    driver.load_program()
-    rnd = random.Random(seed())
-    tasks = []
-    for ci, (attrs, direction, numeric) in enumerate(CONFIGS):
-        specs = NUM_SPECS if numeric else SPECS
-        combos = []
-        for n in range(1, b['nlines'] + 1):
-            for ls in itertools.product(specs, repeat=n):
-                if sum(1 for x in ls if x[1] > 0) < 2:
-                    continue
-                combos.append(ls)
-        rnd.shuffle(combos)
-        combos.sort(key=len)
-        short = [c for c in combos if len(c) <= 2]
-        longer = [c for c in combos if len(c) > 2]
-        rnd.shuffle(longer)
-        chosen = (short + longer)[:b['per_cfg']] if len(short) < b['per_cfg'] else short[:b['per_cfg']]
-        for i, ls in enumerate(chosen):
-            lay = (0, 0, 1, 0, 0) if i % 3 else (1, 2, 2, 0, 1)
-            s0 = (0, 0, 0) if i % 5 else ((1, 1, 0) if not numeric else (1, 1, 0))
-            tasks.append((ci, lay, (s0, ls, (0, 0, 0)), i % 4 == 0))
-    results = pmap(run_case, tasks, chunksize=4)
-    for r in results:
-        agg.add(r)
-    by_role = {}
-    for v in agg.violations:
-        by_role.setdefault(v['role'], []).append(v)
-    final = []
-    for role, vs in sorted(by_role.items()):
-        vs.sort(key=lambda v: len(v['src']))
-        got = None
-        for i, v in enumerate(vs[:6]):
-            confirm(binary, v, i)
-            if v['confirmed']:
-                got = v
-                break
-        final.append(got or vs[0])
-    agg.violations = final
-    samples = [s for r in results for s in r.get('samples', [])]
-    rnd.shuffle(samples)
-    for s in samples[:b['validate']]:
-        obs = observe(binary, s['src'].encode('latin1'))
-        got = None if obs.get('diags') is None else [tuple(map(tuple, x)) for x in obs['diags']]
-        want = [] if s['reported'] is None else [tuple(map(tuple, s['reported']))]
-        if got == want:
-            agg.validated += 1
-        else:
-            msg = 'mirsym %s vs real %s on %r' % (want, obs, s['src'])
-            agg.validation_failures.append(msg)
-            agg.engine_errors.append({'engine_error': 'translator validation: ' + msg})
-    bounds = dict(b)
-    bounds.update(tasks=len(tasks), configs=[c[0] for c in CONFIGS], key_alphabet='abB1 (+inner blanks)',
-                  numeric_keys='-?[0129]{1,3}', line_shapes=SPECS)
-    return finish(
-        agg, bounds,
-        assumptions=['keep-sorted-pattern (regex) configurations are outside this check',
-                     'numeric keys are integer literals -?[0-9]{1,3} (exactly representable); decimals, exponents, inf/nan are outside',
-                     'tree-sitter / tag scanner replaced as in C10; ASCII only',
-                     'is_content_modified and _is_start_tag_modified are free booleans: the verdict must not depend on them (C02)'],
-        stubs=['WinnowBlockTagParser::next (reference scanner)', 'serde_json::to_value'],
-        must_cover=['clean', 'reported', 'numeric', 'lexicographic', 'asc', 'desc'],
-        explanation='first-out-of-order conditions as Z3 formulas over the key bytes (bytewise / integer value), compared with the reported verdict and range on every path')
+    return run_main(PROP, tier, CONFIGS, lambda c: NUM_SPECS if c.numeric else SPECS, BOUNDS,
+                    assumptions=['keys over {a,b,B,1} with inner blanks (trim form), {a,b} for the two regex forms k=(?P<value>[ab]+) and [ab]+',
+                                 'numeric keys are integer literals -?[0129]{1,3} (exactly representable); decimals, exponents, inf/nan are outside',
+                                 'the regex engine is the reference model mirsym/rexmodel.py, not the regex crate',
+                                 'tree-sitter / tag scanner replaced as in C10; ASCII only',
+                                 'is_content_modified and _is_start_tag_modified are free booleans: the verdict must not depend on them (C02)'],
+                    must_cover=['clean', 'reported', 'numeric', 'mode:trim', 'mode:group', 'mode:plain', 'rule:asc', 'rule:desc'])
 
 
 if __name__ == '__main__':
